@@ -9,7 +9,13 @@ Correspondence: for every generated string and each of the four parsers
     is_ltl_state, arities);
   * accept/reject and the tree equal the model's parse (the model is proved to accept only the documented grammar);
   * upper bound (sampled in quick): whatever the LALR parser accepts is derivable with Lark's Earley parser +
-    dynamic lexer on the live grammar text (the pure CFG)."""
+    dynamic lexer on the live grammar text (the pure CFG).
+Further streams: non-ASCII characters that regexes / str methods treat like ASCII ones (Unicode decimal digits, letters
+that case-fold to ASCII letters, word-class letters, fullwidth forms, Unicode blanks, operator look-alikes) inside and around names;
+keywords in another case; inputs nested 500..5000 deep, whose results are read ITERATIVELY (explicit stack over
+.subformulas(), the recursion limit is never raised); and SESSIONS: one fresh parser object per logic is given a sequence in
+which every string comes back a second and a third time, interleaved with look-alikes (blank-padded, blank-collapsed,
+case-changed, fullwidth) - every call must give the outcome of a parser that has never seen anything."""
 from common import *
 import parsegen as PG
 LEVEL = 'proof'
@@ -94,22 +100,51 @@ def build_cases(R):
     for name, s in sample:
         for _ in range(3 if th else 2):
             add('charmut', PG.char_mutation(rng, s))
+    # --- non-ASCII characters that behave like ASCII ones for \d, \w, re.IGNORECASE, str.isdigit/isalpha/strip, NFKC
+    for t in PG.unicode_fixed():
+        add('unicode_fixed', t)
+    for name, s in valid:
+        for _ in range(2 if th else 1):
+            add('unicode_mut', PG.unicode_mutation(rng, s))
+    for _ in range(20000 if th else 1500):
+        add('unicode_words', PG.unicode_words(rng, rng.randint(1, 4)))
+    # --- keywords in another case (plain names, never operators)
+    for _ in range(20000 if th else 2000):
+        add('casewords', PG.case_words(rng, rng.randint(1, 5)))
+    # --- sessions: sequences for ONE parser object per logic; every string comes back a second and a third time
+    corpus = sorted({s for L in LANGS for s in CORPUS[L]})
+    by_stream = {}
+    for st, s, _ in cases:
+        if len(s) <= 200:
+            by_stream.setdefault(st.split(':')[0], []).append(s)
+    sessions = [PG.session(rng, corpus)]
+    for _ in range(160 if th else 23):
+        base = []
+        for st, k in (('printed', 8), ('mutated', 8), ('respaced', 3), ('special', 4), ('garbage', 3), ('unicode_fixed', 2), ('unicode_mut', 2), ('words<=3', 2), ('charmut', 2)):
+            base += rng.sample(by_stream[st], k)
+        rng.shuffle(base)
+        sessions.append(PG.session(rng, base))
+    for seq in sessions:
+        for t in seq:
+            add('history', t)
+    # --- nesting far beyond the recursion limit (read iteratively, compared separately)
+    deep = PG.deep_inputs(rng)
     seen = set()
     out = []
     for c in cases:
         if (c[0], c[1]) not in seen:
             seen.add((c[0], c[1]))
             out.append(c)
-    return out
+    return out, sessions, deep
 
 
-def contract(L, s, r):
+def contract(L, s, r, flat=False):
     """the part monitored on the implementation alone; returns a list of complaints"""
     bad = []
     if r[0] == 'ok':
         if r[2] != (L,):
             bad.append('formula of another logic: node languages %s' % (r[2],))
-        if not PG.doc_member(L, r[1]):
+        if not (PG.doc_member_flat(L, r[1]) if flat else PG.doc_member(L, r[1])):
             bad.append('accepted tree is outside the documented grammar')
     elif r[0] == 'okbad':
         bad.append('returned a non-formula: %s' % r[1])
@@ -121,12 +156,46 @@ def contract(L, s, r):
     return bad
 
 
+def flat_depth(toks):
+    """nesting depth of a preorder token list"""
+    depth, best, pending = 0, 0, []
+    for tk in toks:
+        if isinstance(tk, str):
+            while pending:
+                pending[-1] -= 1
+                if pending[-1] > 0:
+                    break
+                pending.pop()
+        else:
+            pending.append(tk[1])
+            best = max(best, len(pending))
+    return best
+
+
+def flat_summary(r):
+    """a deep outcome without its thousands of tokens"""
+    if r[0] == 'ok':
+        return ('ok', {'tokens': len(r[1]), 'depth': flat_depth(r[1]), 'first': r[1][:8], 'last': r[1][-4:]}) + tuple(r[2:])
+    return r
+
+
+def short(x, n=300):
+    t = repr(x)
+    return t if len(t) <= n else t[:n] + '...'
+
+
 def run(R):
     R.rule = ('strings, each given to PL/CTLS/CTL/LTL.Parser(): all word sequences of length <= 3 over {true,false,not,or,and,-->,A,E,X,F,G,U,R,(,),p,q} '
               '(length 4: 9000 sampled in quick, all 83521 in thorough; sampled length 5-7), the same with ~ | & "s t" orb Until Ab true_, glued forms '
               "('' or ' ' per gap), str() of random formulas of every logic (CTL in both notations) cross-fed to all parsers, exactly one token-level "
               'delete/insert/neighbour-swap/replace of those, respaced variants with synonyms / quoted atoms / tabs and newlines, hand-written corner '
-              'cases and a corpus of documented examples with hand-written expected outcome, long and deeply nested inputs, a character-level garbage stream and one-character edits of valid strings. Per (string, parser): '
+              'cases and a corpus of documented examples with hand-written expected outcome, long and deeply nested inputs, a character-level garbage stream and one-character edits of valid strings; '
+              'NON-ASCII: 87 characters that some regex / str method treats like ASCII ones (Unicode decimal digits \\d, other numerics, the 4 letters [a-z] matches under IGNORECASE, \\w letters, fullwidth and '
+              'NFKC-equivalent forms, joiners / invisible characters, Unicode blanks that str.strip removes, operator and quote look-alikes) each in 22 templates (alone, inside and at either end of a name, next to a keyword, '
+              'as a blank, inside a quoted atom), one such character put into each valid string, and short word sequences with such names; keywords in another case; DEEP: unary chains, parentheses and right/left nested binary '
+              'operators nested 500..5000 deep (balanced and off by one), results read iteratively and compared with the model as preorder token lists, recursion limit untouched; SESSIONS: 24 sequences (thorough 161) of ~200 strings, '
+              'each given to ONE fresh parser object per logic: the documented examples and samples of every stream, each string twice in a row, then two look-alikes (blank-padded with ASCII / Unicode blanks, blank-collapsed, lower/upper/swapped case, '
+              'a fullwidth letter), then again, and once more at the end in another order - every outcome (class, tree, exception class, .pos) must equal the model and the outcome of the first pass. Per (string, parser): '
               'outcome class and exception contract on the implementation, accepted tree in the documented grammar and in the parser\'s own module, '
               'accept/reject and tree vs the model; Earley upper bound on accepted strings. evaluations = (string, parser) pairs. non-trivial = a string '
               'some parser accepts and another rejects, or a (string, parser) rejected at one token edit from a string that parser accepts (or vice versa)')
@@ -134,7 +203,7 @@ def run(R):
     if sym:
         R.violation('operator spellings of the live modules differ from the ones the parser model was proved for',
                     {'symbol_tables': sym}, no_input=True)
-    cases = build_cases(R)
+    cases, sessions, deep = build_cases(R)
     strings = sorted({s for _, s, _ in cases} | {o[1] for _, _, o in cases if o})
     obs = dict(zip(strings, PG.pmap(PG.observe4_chunk, strings)))
     outs = model_batch_parallel([PG.parse_cmd(L, s) for s in strings for L in LANGS], jobs=PG.JOBS)
@@ -153,6 +222,7 @@ def run(R):
     reported = set()
     nviol = 0
     edit_samples, split_samples = [], {}
+    pend_main, pend_hist, pend_deep = [], [], []
     for st, s, org in cases:
         rs, ms = obs[s], model[s]
         h = hist.setdefault(st, {L: {'accepted': 0, 'rejected': 0} for L in LANGS})
@@ -171,9 +241,9 @@ def run(R):
             if bad:
                 reported.add((L, s))
                 nviol += 1
-                if nviol <= 40:
-                    R.violation('%s.Parser: %s' % (L, '; '.join(bad)),
-                                {'lang': L, 'string': s, 'stream': st, 'impl': r, 'model': m, 'complaints': bad})
+                if len(pend_main) < 40:
+                    pend_main.append(('%s.Parser: %s' % (L, '; '.join(bad)),
+                                      {'lang': L, 'string': s, 'stream': st, 'impl': r, 'model': m, 'complaints': bad}))
                 continue
             if org is not None:
                 ro = obs[org[1]][LANGS.index(L)]
@@ -196,6 +266,79 @@ def run(R):
                 if len(s) <= 40 and len(split_samples.setdefault(key, [])) < 1 and st.split(':')[0] in ('printed', 'mutated', 'special'):
                     split_samples[key].append({'string': s, 'accepted_by': [L for L, r in zip(LANGS, rs) if r[0] == 'ok'],
                                                'rejected_by': [L for L, r in zip(LANGS, rs) if r[0] != 'ok']})
+    # ---- deep inputs: results read iteratively, compared as preorder token lists
+    dobs = PG.pmap(PG.observe4_flat_chunk, deep, min_parallel=8, chunk=3)
+    douts = model_batch_parallel([PG.parse_cmd(L, s) for s in deep for L in LANGS], jobs=PG.JOBS)
+    dh = {L: {'accepted': 0, 'rejected': 0} for L in LANGS}
+    depth_hist = {}
+    for i, (s, rs) in enumerate(zip(deep, dobs)):
+        for j, (L, r) in enumerate(zip(LANGS, rs)):
+            R.evaluations += 1
+            m = PG.model_parse_result_flat(douts[4 * i + j])
+            dh[L]['accepted' if r[0] == 'ok' else 'rejected'] += 1
+            bad = contract(L, s, r, flat=True)
+            if not PG.agree_flat(L, r, m):
+                bad.append('accept/reject or tree differs from the model (= documented grammar)')
+            if bad:
+                nviol += 1
+                if len(pend_deep) < 12:
+                    pend_deep.append(('%s.Parser: %s' % (L, '; '.join(bad)),
+                                      {'lang': L, 'string': s, 'stream': 'deep', 'impl': flat_summary(r), 'model': flat_summary(m), 'complaints': bad}))
+                continue
+            if r[0] == 'ok':
+                d = flat_depth(r[1])
+                k = '%d-%d' % (d // 500 * 500, d // 500 * 500 + 499)
+                depth_hist[k] = depth_hist.get(k, 0) + 1
+                R.nontriv(('deep', L, s))
+    hist['deep'] = dh
+    # ---- sessions: one fresh parser object per logic and session
+    sobs = PG.pmap(PG.observe_session_chunk, sessions, min_parallel=2, chunk=1)
+    sh = {L: {'accepted': 0, 'rejected': 0} for L in LANGS}
+    rep = {'parses': 0, 'repeated_accepted': 0, 'repeated_rejected': 0}
+    for seq, souts in zip(sessions, sobs):
+        nth = {}
+        for i, (s, rs) in enumerate(zip(seq, souts)):
+            nth[s] = nth.get(s, 0) + 1
+            for j, (L, r) in enumerate(zip(LANGS, rs)):
+                R.evaluations += 1
+                rep['parses'] += 1
+                sh[L]['accepted' if r[0] == 'ok' else 'rejected'] += 1
+                if ('session', L, s) in reported:
+                    continue
+                m = model[s][j]
+                bad = contract(L, s, r)
+                if not PG.agree(L, r, m):
+                    bad.append('accept/reject or tree differs from the model (= documented grammar)')
+                if r != obs[s][j]:
+                    bad.append('outcome differs from the one a parser object gives that was never given this string or its look-alikes: %s'
+                               % (short(obs[s][j]),))
+                if bad:
+                    reported.add(('session', L, s))
+                    nviol += 1
+                    if len(pend_hist) < 20:
+                        pend_hist.append(('%s.Parser, parse number %d of this string by the same parser object: %s' % (L, nth[s], '; '.join(bad)),
+                                          {'lang': L, 'string': s, 'stream': 'history', 'history': seq[:i], 'nth_parse_of_this_string': nth[s],
+                                           'impl': r, 'model': m, 'complaints': bad}))
+                    continue
+                if nth[s] >= 2:
+                    rep['repeated_accepted' if r[0] == 'ok' else 'repeated_rejected'] += 1
+                    R.nontriv(('repeat', L, s))
+    hist['sessions (same parser object)'] = sh
+    # the first pass ran on long-lived parser objects (one per worker process and logic): a reported pair whose outcome a FRESH
+    # parser object does not reproduce depends on what that object was given before; those are listed after the session
+    # violations, which carry their history
+    later = []
+    for what, data in pend_main:
+        r2 = PG.observe(data['lang'], data['string'], parser=PG.fresh_parser(data['lang']))
+        if r2 != data['impl']:
+            data['fresh_parser_object_gives'] = r2
+            data['history_dependent'] = ('the outcome was observed on a parser object that had parsed other strings before; a fresh one gives '
+                                         'another outcome - see the violations of stream "history", whose replays contain the sequence')
+            later.append((what + ' [only after other calls on the same parser object]', data))
+        else:
+            R.violation(what, data)
+    for what, data in pend_hist + pend_deep + later:
+        R.violation(what, data)
     for x in edit_samples + [v[0] for k, v in sorted(split_samples.items()) if v][:8]:
         R.sample(x, limit=12)
     R.count('violating_string_parser_pairs', nviol)
@@ -212,6 +355,9 @@ def run(R):
     R.cov['error_position_CTLS'] = pos_hist
     R.cov['earley_upper_bound'] = {'accepted_pairs_checked': len(acc), 'derivable': sum(1 for v in earley.values() if v)}
     R.cov['cases_by_stream'] = {st: sum(1 for c in cases if c[0] == st) for st in sorted(hist)}
+    R.cov['cases_by_stream']['deep'] = len(deep)
+    R.cov['deep_accepted_results_by_nesting_depth'] = dict(sorted(depth_hist.items()))
+    R.cov['sessions'] = dict(rep, sessions=len(sessions), strings_per_session=[len(q) for q in sessions[:3]])
     R.exhaustive = False
 
 
@@ -224,8 +370,41 @@ def replay(R, data):
         return
     s, L0 = d['string'], d['lang']
     outs = model_batch([PG.parse_cmd(L, s) for L in LANGS])
-    print('string:', repr(s), 'len', len(s))
+    print('string:', short(s, 400), 'len', len(s))
     again = False
+    if d.get('stream') == 'deep':
+        for L, a in zip(LANGS, outs):
+            r = PG.observe(L, s, flat_result=True)
+            m = PG.model_parse_result_flat(a)
+            bad = contract(L, s, r, flat=True)
+            if not PG.agree_flat(L, r, m):
+                bad.append('differs from the model')
+            print('%-4s impl : %s' % (L, (flat_summary(r),)))
+            print('     model: %s%s' % ((flat_summary(m),), ('   <-- ' + '; '.join(bad)) if bad else ''))
+            again = again or (bad and L == L0)
+        if again:
+            R.violation('replayed', d)
+        return
+    if 'history' in d:
+        # the same parser object is given the recorded sequence first
+        P = PG.fresh_parser(L0)
+        for t in d['history']:
+            PG.observe(L0, t, parser=P)
+        r = PG.observe(L0, s, parser=P)
+        r0 = PG.observe(L0, s, parser=PG.fresh_parser(L0))
+        m = PG.model_parse_result(outs[LANGS.index(L0)])
+        bad = contract(L0, s, r)
+        if not PG.agree(L0, r, m):
+            bad.append('differs from the model')
+        if r != r0:
+            bad.append('differs from the outcome of a fresh parser object')
+        print('%-4s after %d earlier calls on the same parser object (%d of them with this string)' % (L0, len(d['history']), d['history'].count(s)))
+        print('     impl        : %s' % short(r, 600))
+        print('     impl (fresh): %s' % short(r0, 600))
+        print('     model       : %s%s' % (short(m, 600), ('   <-- ' + '; '.join(bad)) if bad else ''))
+        if bad:
+            R.violation('replayed', d)
+        return
     for L, a in zip(LANGS, outs):
         r = PG.observe(L, s)
         m = PG.model_parse_result(a)
